@@ -219,8 +219,83 @@ class CV(Imm):
         return snot(self.__eq__(o))
 
 
+class XV(Imm):
+    """extended real: value with a NaN flag (IEEE: NaN propagates through arithmetic, compares false)"""
+    __slots__ = ("v", "nan")
+
+    def __init__(self, v, nan):
+        if isinstance(v, XV):
+            nan = _or_flag(v.nan, nan)
+            v = v.v
+        self.v = v
+        self.nan = nan if isinstance(nan, bool) else z3.simplify(nan)
+        if z3.is_true(self.nan) if not isinstance(self.nan, bool) else False:
+            self.nan = True
+        elif (not isinstance(self.nan, bool)) and z3.is_false(self.nan):
+            self.nan = False
+
+    @staticmethod
+    def of(x):
+        if isinstance(x, XV):
+            return x
+        if isinstance(x, float) and x != x:
+            return XV(0, True)
+        return XV(x, False)
+
+    def __repr__(self):
+        return f"XV<{self.v!r} nan:{self.nan}>"
+
+    def __bool__(self):
+        raise NeedTruth("truth of extended real")
+
+    def __hash__(self):
+        return hash((self.v, str(self.nan)))
+
+    def __add__(self, o): return arith("+", self, o)
+    def __radd__(self, o): return arith("+", o, self)
+    def __sub__(self, o): return arith("-", self, o)
+    def __rsub__(self, o): return arith("-", o, self)
+    def __mul__(self, o): return arith("*", self, o)
+    def __rmul__(self, o): return arith("*", o, self)
+    def __truediv__(self, o): return arith("/", self, o)
+    def __rtruediv__(self, o): return arith("/", o, self)
+    def __pow__(self, o): return arith("**", self, o)
+    def __neg__(self): return XV(arith("-", 0, self.v), self.nan)
+    def __pos__(self): return self
+    def __abs__(self): return XV(sabs(self.v), self.nan)
+    def __lt__(self, o): return compare("<", self, o)
+    def __le__(self, o): return compare("<=", self, o)
+    def __gt__(self, o): return compare(">", self, o)
+    def __ge__(self, o): return compare(">=", self, o)
+    def __eq__(self, o): return compare("==", self, o)
+    def __ne__(self, o): return compare("!=", self, o)
+
+    @property
+    def real(self): return self
+    @property
+    def imag(self): return 0
+
+
+def _or_flag(a, b):
+    if a is True or b is True:
+        return True
+    if a is False:
+        return b
+    if b is False:
+        return a
+    return z3.Or(a, b)
+
+
+def _flag_z(a):
+    return z3.BoolVal(a) if isinstance(a, bool) else a
+
+
+def _is_nan_float(x):
+    return isinstance(x, float) and x != x
+
+
 def is_sym(x):
-    return isinstance(x, (SV, CV))
+    return isinstance(x, (SV, CV, XV))
 
 
 def is_number(x):
@@ -262,6 +337,8 @@ def coerce(z, want):
         return z
     if want == R:
         if s == I:
+            if z3.is_int_value(z):
+                return z3.RealVal(z.as_long())
             return z3.ToReal(z)
         if s == B:
             return z3.If(z, z3.RealVal(1), z3.RealVal(0))
@@ -367,6 +444,9 @@ def _concrete(x):
 
 
 def arith(op, a, b):
+    if isinstance(a, XV) or isinstance(b, XV) or ((_is_nan_float(a) or _is_nan_float(b)) and (is_sym(a) or is_sym(b))):
+        a, b = XV.of(a), XV.of(b)
+        return XV(arith(op, a.v, b.v), _or_flag(a.nan, b.nan))
     if isinstance(a, CV) or isinstance(b, CV) or isinstance(a, complex) or isinstance(b, complex):
         return carith(op, a, b)
     if not isinstance(a, SV) and not isinstance(b, SV):
@@ -456,6 +536,16 @@ def carith(op, a, b):
 
 
 def compare(op, a, b):
+    if isinstance(a, XV) or isinstance(b, XV) or ((_is_nan_float(a) or _is_nan_float(b)) and (is_sym(a) or is_sym(b))):
+        a, b = XV.of(a), XV.of(b)
+        anynan = _or_flag(a.nan, b.nan)
+        c = compare(op, a.v, b.v)
+        if anynan is False:
+            return c
+        if op == "!=":
+            return logic("|", SV(_flag_z(anynan)) if not isinstance(anynan, bool) else anynan, c)
+        notnan = (not anynan) if isinstance(anynan, bool) else SV(z3.Not(anynan))
+        return logic("&", notnan, c)
     if isinstance(a, CV) or isinstance(b, CV):
         if op == "==":
             return as_complex(a).__eq__(b)
@@ -528,6 +618,8 @@ def snot(a):
 
 
 def sabs(a):
+    if isinstance(a, XV):
+        return a.__abs__()
     if isinstance(a, CV):
         return a.__abs__()
     if isinstance(a, SV):
@@ -543,6 +635,9 @@ def ite(c, a, b):
     if isinstance(c, bool):
         return a if c else b
     cz = truth_z(c)
+    if isinstance(a, XV) or isinstance(b, XV) or ((_is_nan_float(a) or _is_nan_float(b)) and (is_sym(a) or is_sym(b))):
+        a, b = XV.of(a), XV.of(b)
+        return XV(ite(c, a.v, b.v), z3.If(cz, _flag_z(a.nan), _flag_z(b.nan)))
     if isinstance(a, CV) or isinstance(b, CV) or isinstance(a, complex) or isinstance(b, complex):
         a, b = as_complex(a), as_complex(b)
         return CV(ite(c, a.re, b.re), ite(c, a.im, b.im))
@@ -570,6 +665,8 @@ def truth_z(c):
         return coerce(c.z, B)
     if isinstance(c, CV):
         return z3.Or(truth_z(c.re), truth_z(c.im))
+    if isinstance(c, XV):
+        return z3.Or(_flag_z(c.nan), truth_z(c.v))
     return z3.BoolVal(bool(c))
 
 
